@@ -6,20 +6,23 @@ set -u
 W=/tmp/vseed_wt
 git -C /repo worktree remove --force $W 2>/dev/null
 git -C /repo worktree add -q --detach $W HEAD || exit 1
-for d in /tmp/seed/C*/_out/mut*; do
-  prop=$(echo $d | sed 's#.*/seed/\(C[0-9]*\)/.*#\1#'); i=$(basename $d | sed 's/mut//')
+SEED_ROOT=${SEED_ROOT:-/tmp/seed}
+for d in $SEED_ROOT/C*/_out/mut*; do
+  prop=$(echo $d | sed 's#.*/\(C[0-9][0-9]\)/_out/.*#\1#'); i=$(basename $d | sed 's/mut//')
   id="$prop-m$i"
   [ -f $d/patch.diff ] || { echo "$id: no patch"; continue; }
+  [ -d /verif/seeded/$id ] && [ -z "${FORCE:-}" ] && { echo "$id: already accepted"; continue; }
   demo=$d/demo.py; [ -f $demo ] || demo=$d/demo_test.py
   cd $W && git checkout -q -- . && git clean -qfd
   if ! git apply --check $d/patch.diff 2>/dev/null; then echo "$id: patch does not apply"; continue; fi
   # clean run of the demo
-  cp $demo $W/_demo.py
-  PYTHONPATH=$W/src timeout 600 /venv/bin/python _demo.py >/tmp/vseed_clean.log 2>&1; rc_clean=$?
+  # the demo keeps the place it had in the agent's clone (<clone>/_out/mut<i>/demo.py): some locate test/resources relative to it
+  mkdir -p $W/_out/mut$i; cp $demo $W/_out/mut$i/demo.py
+  PYTHONPATH=$W/src timeout 900 /venv/bin/python _out/mut$i/demo.py >/tmp/vseed_clean.log 2>&1; rc_clean=$?
   git apply $d/patch.diff
-  PYTHONPATH=$W/src timeout 600 /venv/bin/python _demo.py >/tmp/vseed_mut.log 2>&1; rc_mut=$?
+  PYTHONPATH=$W/src timeout 900 /venv/bin/python _out/mut$i/demo.py >/tmp/vseed_mut.log 2>&1; rc_mut=$?
   tests=$(PYTHONPATH=$W/src timeout 900 /venv/bin/python -m pytest -q -p no:cacheprovider --timeout=900 --continue-on-collection-errors 2>&1 | tail -1)
-  rm -f $W/_demo.py
+  rm -rf $W/_out
   ok=no
   if [ $rc_clean -eq 0 ] && [ $rc_mut -ne 0 ] && echo "$tests" | grep -q "200 passed"; then ok=yes; fi
   echo "$id: clean_rc=$rc_clean mut_rc=$rc_mut tests='$tests' accepted=$ok"
